@@ -410,7 +410,9 @@ func (g nasGen) wfVal(mi *nasMsgInfo, i int, big bool) string {
 		if big {
 			len_ = g.pick(0, 1, 255, 255, 254)
 			if sh.lenW == 2 {
-				len_ = g.pick(255, 256, 257, 65535, 65535, 65534, 1000+rng.Intn(5000))
+				// boundaries, and any length in between (arithmetic on a narrowed remaining-octet count depends on the
+				// length modulo 256, not on the boundaries)
+				len_ = g.pick(255, 256, 257, 65535, 65535, 65534, 1000+rng.Intn(5000), 200+rng.Intn(900), 200+rng.Intn(900), 230+rng.Intn(40), 486+rng.Intn(40))
 			}
 		}
 		if len_ > maxLen {
